@@ -245,7 +245,7 @@ PLANS = {
             ("drive:wide", ["typed1", "unsafe2", "exch8", "mapt42"]), ("drive:plain", ["typed11", "unsafe1"]),
             ("drive:big", ["typed1", "unsafe3"]), ("drive:rich", ["typed1", "unsafe2"]), ("suite", [])],
     "C02": [("core", ["typed1", "unsafe1"]), ("rel", ["typed11", "unsafe1"]), ("drive:wide", ["typed1", "unsafe2"]),
-            ("drive:rel2", ["typed11", "unsafe1"]), ("dump", ["typed1", "unsafe2"]), ("drive:reset", ["typed1", "unsafe2"]), ("suite", [])],
+            ("drive:rel2", ["typed11", "unsafe1"]), ("dump", ["typed1", "unsafe2"]), ("drive:reset", ["typed1", "unsafe2"]), ("suite", []), ("poolind", [])],
     "C03": [("core", ["typed1", "unsafe1", "typedfill"]), ("rel", ["typed1", "unsafe1", "typed11"]), ("cache", ["typed1"]),
             ("drive:wide", ["typed1", "unsafe2"]), ("drive:rel2", ["typed11", "unsafe1"]), ("drive:lock", ["typed1", "typed11", "unsafe2"]),
             ("cursor", [])],
@@ -902,6 +902,9 @@ def check_generic(ctx):
         if fam == "suite":
             suite_trace_stage(ctx)
             continue
+        if fam == "poolind":
+            pool_induction_stage(ctx)
+            continue
         if fam.startswith("drive:"):
             drive_family(ctx, fam[6:], cells, pc.get("probes", 0),
                          extra_cfg={k: v for k, v in pc.items() if k != "probes"})
@@ -927,7 +930,7 @@ def check_generic(ctx):
             continue
         ctx.stats["sequences"] += gen["nseq"]
         # quick tier: replay a seed-chosen sample of the transitions sized to the budget
-        nbfs = max(1, len([1 for f, _ in plan if not f.startswith("drive:") and f not in ("obsmodel", "obsenum", "statsmodel", "cursor", "suite")]))
+        nbfs = max(1, len([1 for f, _ in plan if not f.startswith("drive:") and f not in ("obsmodel", "obsenum", "statsmodel", "cursor", "suite", "poolind")]))
         budget = (400000 // nbfs) if quick else (9000000 // nbfs)   # events per family
         cs = choose_cells(ctx, cells)
         per_seq = FAMILIES[fam]["tiers"][ctx.tier]["MaxHist"] + 7
@@ -1144,6 +1147,46 @@ def suite_trace_stage(ctx):
             len(order), nops, v["lines"], time.time() - t0, "" if suite_ok else " - the suite itself FAILS"))
     finally:
         shutil.rmtree(scratch, ignore_errors=True)
+
+
+def pool_induction_stage(ctx):
+    """C02 for histories of any length: ArkPool.tla (the entity pool alone) - TLC checks IndInv on the reachable
+    states, Apalache checks that IndInv is inductive (Init => IndInv; IndInv /\\ Next => IndInv'), so that handle
+    freshness, exact liveness and the free-list shape hold after ANY number of creations and removals of up to N ids
+    with generations below G.  An Apalache run that does not finish within its time limit is recorded, not judged."""
+    quick = ctx.tier == "quick"
+    n, g = (4, 3) if quick else (5, 3)
+    d = os.path.join(ctx.work, "pool")
+    os.makedirs(d, exist_ok=True)
+    shutil.copy(os.path.join(SPEC, "ArkPool.tla"), d)
+    cfg = "INIT Init\nNEXT Next\nCONSTANTS\n  N = %d\n  G = %d\nINVARIANTS IndInv\nCHECK_DEADLOCK FALSE\n" % (n + 1, g)
+    open(os.path.join(d, "pool.cfg"), "w").write(cfg)
+    p, dt = run(["tlc", "-workers", "8", "-metadir", os.path.join(d, "meta"), "-config", "pool.cfg", "ArkPool.tla"], 900, cwd=d)
+    gen, dist = parse_tlc_stats(p.stdout)
+    ctx.stats["states"] += dist
+    ctx.stats["transitions"] += gen
+    bad = None if "Model checking completed. No error has been found" in p.stdout else "IndInv (reachable states)"
+    if bad and "is violated" not in p.stdout:
+        raise Inconclusive("TLC failed on ArkPool:\n" + p.stdout[-1500:])
+    ctx.stats["families"].append(dict(family="pool", states=dist, transitions=gen, wall_s=round(dt, 1), violated=bad, N=n + 1, G=g))
+    if bad:
+        ctx.stats["design_findings"].append(dict(family="pool", invariant=bad))
+    open(os.path.join(d, "apa.cfg"), "w").write("INIT Init\nNEXT Next\nCONSTANTS\n  N = %d\n  G = %d\n" % (n, g))
+    res = {}
+    for label, args in (("base", ["--init=Init", "--length=0"]), ("step", ["--init=IndInit", "--length=1"])):
+        pa, dta = run(["apalache-mc", "check", "--config=apa.cfg", "--inv=IndInv", "--out-dir=" + os.path.join(d, "apa-out")] + args + ["ArkPool.tla"],
+                      400 if quick else 2400, cwd=d)
+        if "The outcome is: NoError" in pa.stdout:
+            res[label] = "holds"
+        elif "The outcome is: Error" in pa.stdout:
+            res[label] = "violated"
+        else:
+            res[label] = "not completed (%s)" % (pa.stdout.strip().splitlines()[-1][:120] if pa.stdout.strip() else "no output")
+        res[label + "_wall_s"] = round(dta, 1)
+    ctx.stats["families"].append(dict(family="pool-induction", tool="apalache-mc 0.58", N=n, G=g, **res))
+    if "violated" in (res["base"], res["step"]):
+        ctx.stats["design_findings"].append(dict(family="pool-induction", invariant="IndInv is not inductive"))
+    log("  pool: TLC %d states; Apalache base %s, step %s" % (dist, res["base"], res["step"]))
 
 
 def variants_for(ctx, pid):
